@@ -132,8 +132,15 @@ def variance_stokes_constant(st, sections, acquisitiontime, reshape_residuals=Tr
         return var_I, resid
 
     else:
-        ix_resid = ufunc_per_section_helper(
-            sections=sections, x_coords=st.x, calc_per="all"
+        # in the order of the stretches in data_dict, which is the order of resid
+        ix_resid = np.concatenate(
+            [
+                ix
+                for v in ufunc_per_section_helper(
+                    sections=sections, x_coords=st.x, calc_per="stretch"
+                ).values()
+                for ix in v
+            ]
         )
 
         resid_sorted = np.full(shape=st.shape, fill_value=np.nan)
@@ -324,8 +331,15 @@ def variance_stokes_exponential(
         # _resid_x = self.ufunc_per_section(
         #     sections=sections, label="x", calc_per="all"
         # )
-        _resid_x = ufunc_per_section_helper(
-            sections=sections, dataarray=st.coords["x"], calc_per="all"
+        # in the order of the stretches in x_list/y_list, which is the order of _resid
+        _resid_x = np.concatenate(
+            [
+                xi
+                for v in ufunc_per_section_helper(
+                    sections=sections, dataarray=st.coords["x"], calc_per="stretch"
+                ).values()
+                for xi in v
+            ]
         )
         isort = np.argsort(_resid_x)
         resid_x = _resid_x[isort]  # get indices from ufunc directly
@@ -465,8 +479,15 @@ def variance_stokes_linear(
         acquisitiontime=acquisitiontime,
         reshape_residuals=False,
     )
-    ix_sec = ufunc_per_section_helper(
-        sections=sections, x_coords=st.coords["x"], calc_per="all"
+    # in the order of the stretches, which is the order of resid
+    ix_sec = np.concatenate(
+        [
+            ix
+            for v in ufunc_per_section_helper(
+                sections=sections, x_coords=st.coords["x"], calc_per="stretch"
+            ).values()
+            for ix in v
+        ]
     )
 
     st = st.isel(x=ix_sec).values.ravel()
